@@ -99,7 +99,10 @@ mod stub {
 
     use oxidd_core::verif::{self, site};
 
-    use crate::verif_sync::Mutex;
+    // The queues are only accessed in tiny critical sections without hook
+    // calls. Since the simulator runs one thread at a time, a plain mutex
+    // never blocks here, and polling an empty queue is no decision point.
+    use parking_lot::Mutex;
 
     /// Type-erased reference to a job living on some stack or heap
     #[derive(Clone, Copy)]
@@ -194,16 +197,13 @@ mod stub {
                     });
                     continue;
                 }
-                let job = shared.targeted[index].lock().pop_front();
-                if let Some(job) = job {
-                    // SAFETY: the creator of the job waits for its completion
-                    unsafe { (job.exec)(job.ptr) };
-                    continue;
+                let mut job = shared.targeted[index].lock().pop_front();
+                if job.is_none() {
+                    job = shared.queue.lock().pop_front();
                 }
-                verif::yield_point(site::POOL_TAKE);
-                let job = shared.queue.lock().pop_front();
                 if let Some(job) = job {
-                    // SAFETY: as above
+                    verif::yield_point(site::POOL_TAKE);
+                    // SAFETY: the creator of the job waits for its completion
                     unsafe { (job.exec)(job.ptr) };
                     continue;
                 }
